@@ -1017,10 +1017,31 @@ theorem update_rem_eq (time : Nat) (l : Live) (t : Nat) :
 /-- the live state at the cost/perform boundary of `stepBody` (after absence, allocation,
 `check_state(WORKING)` and the component check; `l4` in the model) -/
 def preCost (m : Model) (p : Params) (s : St) : Live :=
-  compCheck m (chkWorking m
-    (if !(p.absence.contains s.time) then
-      allocate m s.logs p.rule (absenceSet m s.time (!(p.absence.contains s.time)) s.live)
-     else absenceSet m s.time (!(p.absence.contains s.time)) s.live))
+  compCheck m
+    (if (!(p.absence.contains s.time) || p.autoFlag) then chkWorking m
+      (if !(p.absence.contains s.time) then
+        allocate m s.logs p.rule (absenceSet m s.time (!(p.absence.contains s.time)) s.live)
+       else absenceSet m s.time (!(p.absence.contains s.time)) s.live)
+     else
+      (if !(p.absence.contains s.time) then
+        allocate m s.logs p.rule (absenceSet m s.time (!(p.absence.contains s.time)) s.live)
+       else absenceSet m s.time (!(p.absence.contains s.time)) s.live))
+
+/-- at a project absence step with the flag off nothing starts: the cost/perform boundary is the
+component check of the state after `absenceSet` -/
+theorem preCost_inactive (p : Params) (s : St) (h : p.absence.contains s.time = true)
+    (hf : p.autoFlag = false) :
+    preCost m p s = compCheck m (absenceSet m s.time false s.live) := by
+  unfold preCost; rw [h, hf]; rfl
+
+/-- on a working step, and on every step when the flag is set, `check_state(WORKING)` runs -/
+theorem preCost_active (p : Params) (s : St)
+    (h : (!(p.absence.contains s.time) || p.autoFlag) = true) :
+    preCost m p s = compCheck m (chkWorking m
+      (if !(p.absence.contains s.time) then
+        allocate m s.logs p.rule (absenceSet m s.time (!(p.absence.contains s.time)) s.live)
+       else absenceSet m s.time (!(p.absence.contains s.time)) s.live)) := by
+  unfold preCost; rw [if_pos h]
 
 theorem stepBody_live (p : Params) (s : St) :
     (stepBody m p s).live =
@@ -1034,16 +1055,21 @@ theorem stepBody_tstate (p : Params) (s : St) :
 
 theorem preCost_rem (p : Params) (s : St) : (preCost m p s).rem = s.live.rem := by
   unfold preCost
-  split <;> simp
+  split <;> split <;> simp
 
 theorem preCost_start (p : Params) (s : St) : Start s.live.tstate (preCost m p s).tstate := by
   unfold preCost
   split
-  · have h := chkWorking_start (m := m)
-      (allocate m s.logs p.rule (absenceSet m s.time (!(p.absence.contains s.time)) s.live))
-    rw [allocate_tstate, absenceSet_tstate] at h
-    exact h
-  · exact chkWorking_start (m := m) (absenceSet m s.time (!(p.absence.contains s.time)) s.live)
+  · split
+    · have h := chkWorking_start (m := m)
+        (allocate m s.logs p.rule (absenceSet m s.time (!(p.absence.contains s.time)) s.live))
+      rw [allocate_tstate, absenceSet_tstate] at h
+      exact h
+    · exact chkWorking_start (m := m) (absenceSet m s.time (!(p.absence.contains s.time)) s.live)
+  · split
+    · show Start s.live.tstate (allocate m s.logs p.rule _).tstate
+      rw [allocate_tstate, absenceSet_tstate]; exact Start.refl _
+    · exact Start.refl _
 
 /-- the remaining work after one loop step -/
 theorem stepBody_rem (p : Params) (s : St) (t : Nat) :
@@ -1182,43 +1208,65 @@ theorem preCost_wstate_keep (p : Params) (s : St) (w : Nat) (hre : ReadyEmpty s.
     (h : (absenceSet m s.time (!(p.absence.contains s.time)) s.live).wstate w = .absence) :
     (preCost m p s).wstate w = .absence := by
   unfold preCost
-  show (chkWorking m _).wstate w = .absence
+  show (if _ then chkWorking m _ else _ : Live).wstate w = .absence
   split
-  · apply chkWorking_wstate_keep
+  · split
+    · apply chkWorking_wstate_keep
+      · rw [allocate_wstate]; exact h
+      · intro t ht hmem
+        rw [allocate_tstate, absenceSet_tstate] at ht
+        rcases (allocate_sub (m := m) s.logs p.rule _).1 t w hmem with h1 | h1
+        · have : s.live.allocW t = [] := (hre t ht).1
+          change w ∈ s.live.allocW t at h1
+          rw [this] at h1; cases h1
+        · rw [h] at h1; cases h1
+    · apply chkWorking_wstate_keep
+      · exact h
+      · intro t ht hmem
+        change w ∈ s.live.allocW t at hmem
+        rw [(hre t ht).1] at hmem; cases hmem
+  · split
     · rw [allocate_wstate]; exact h
-    · intro t ht hmem
-      rw [allocate_tstate, absenceSet_tstate] at ht
-      rcases (allocate_sub (m := m) s.logs p.rule _).1 t w hmem with h1 | h1
-      · have : s.live.allocW t = [] := (hre t ht).1
-        change w ∈ s.live.allocW t at h1
-        rw [this] at h1; cases h1
-      · rw [h] at h1; cases h1
-  · apply chkWorking_wstate_keep
     · exact h
-    · intro t ht hmem
-      change w ∈ s.live.allocW t at hmem
-      rw [(hre t ht).1] at hmem; cases hmem
 
 theorem preCost_fstate_keep (p : Params) (s : St) (f : Nat) (hre : ReadyEmpty s.live)
     (h : (absenceSet m s.time (!(p.absence.contains s.time)) s.live).fstate f = .absence) :
     (preCost m p s).fstate f = .absence := by
   unfold preCost
-  show (chkWorking m _).fstate f = .absence
+  show (if _ then chkWorking m _ else _ : Live).fstate f = .absence
   split
-  · apply chkWorking_fstate_keep
+  · split
+    · apply chkWorking_fstate_keep
+      · rw [allocate_fstate]; exact h
+      · intro t ht hmem
+        rw [allocate_tstate, absenceSet_tstate] at ht
+        rcases (allocate_sub (m := m) s.logs p.rule _).2 t f hmem with h1 | h1
+        · have : s.live.allocF t = [] := (hre t ht).2
+          change f ∈ s.live.allocF t at h1
+          rw [this] at h1; cases h1
+        · rw [h] at h1; cases h1
+    · apply chkWorking_fstate_keep
+      · exact h
+      · intro t ht hmem
+        change f ∈ s.live.allocF t at hmem
+        rw [(hre t ht).2] at hmem; cases hmem
+  · split
     · rw [allocate_fstate]; exact h
-    · intro t ht hmem
-      rw [allocate_tstate, absenceSet_tstate] at ht
-      rcases (allocate_sub (m := m) s.logs p.rule _).2 t f hmem with h1 | h1
-      · have : s.live.allocF t = [] := (hre t ht).2
-        change f ∈ s.live.allocF t at h1
-        rw [this] at h1; cases h1
-      · rw [h] at h1; cases h1
-  · apply chkWorking_fstate_keep
     · exact h
-    · intro t ht hmem
-      change f ∈ s.live.allocF t at hmem
-      rw [(hre t ht).2] at hmem; cases hmem
+
+/-- at a project absence step with the flag off every resource is ABSENCE at the cost/perform
+boundary, whatever READY tasks hold (nothing starts, so no start can overwrite the state) -/
+theorem preCost_wstate_inactive (p : Params) (s : St) (w : Nat) (hw : w < m.nW)
+    (h : p.absence.contains s.time = true) (hf : p.autoFlag = false) :
+    (preCost m p s).wstate w = .absence := by
+  rw [preCost_inactive p s h hf]
+  exact absenceSet_wstate_off s.time s.live w hw
+
+theorem preCost_fstate_inactive (p : Params) (s : St) (f : Nat) (hlt : f < m.nF)
+    (h : p.absence.contains s.time = true) (hf : p.autoFlag = false) :
+    (preCost m p s).fstate f = .absence := by
+  rw [preCost_inactive p s h hf]
+  exact absenceSet_fstate_off s.time s.live f hlt
 
 /-- allocation lists through an absence step -/
 theorem preCost_alloc_off (p : Params) (s : St) (h : p.absence.contains s.time = true) :
@@ -1226,11 +1274,13 @@ theorem preCost_alloc_off (p : Params) (s : St) (h : p.absence.contains s.time =
     (preCost m p s).wasg = s.live.wasg ∧ (preCost m p s).fasg = s.live.fasg := by
   unfold preCost
   rw [h]
-  refine ⟨?_, ?_, ?_, ?_⟩
-  · show (chkWorking m _).allocW = _; rw [chkWorking_allocW]; rfl
-  · show (chkWorking m _).allocF = _; rw [chkWorking_allocF]; rfl
-  · show (chkWorking m _).wasg = _; rw [chkWorking_wasg]; rfl
-  · show (chkWorking m _).fasg = _; rw [chkWorking_fasg]; rfl
+  cases p.autoFlag
+  · exact ⟨rfl, rfl, rfl, rfl⟩
+  · refine ⟨?_, ?_, ?_, ?_⟩
+    · show (chkWorking m _).allocW = _; rw [chkWorking_allocW]; rfl
+    · show (chkWorking m _).allocF = _; rw [chkWorking_allocF]; rfl
+    · show (chkWorking m _).wasg = _; rw [chkWorking_wasg]; rfl
+    · show (chkWorking m _).fasg = _; rw [chkWorking_fasg]; rfl
 
 /-! ### the finish gate after `__update` -/
 
